@@ -82,6 +82,13 @@ def intoSigned (e : Encoding) (i : Int) : Term :=
   let zero := intoNum e 0
   if i > 0 then tuple2 numeral zero else tuple2 zero numeral
 
+/-- `into_signed` with the refusal the crate has: `Binary => panic!("signed binary numbers are not supported")`
+(`none` = panic).  The driver answers `signed` operations with this function. -/
+def intoSignedChecked (e : Encoding) (i : Int) : Option Term :=
+  match e with
+  | .Binary => none
+  | _ => some (intoSigned e i)
+
 /-! ### containers of numerals (`impl_pair!`, `impl_option!`, `impl_result!`) and `From` impls -/
 
 /-- `(a, b).into_E()` and `From<(Term, Term)>` -/
